@@ -601,7 +601,12 @@ impl World {
     pub fn deliver(&mut self, to: usize, msg: &MlsMessage) -> Result<ReceivedMessage, String> {
         let m = msg.clone();
         let g = self.parties[to].group.as_mut().expect("group");
-        match guarded(|| g.process_incoming_message(m)) {
+        let r = if use_timed_entry_point() {
+            guarded(|| g.process_incoming_message_with_time(m, mls_rs::time::MlsTime::now()))
+        } else {
+            guarded(|| g.process_incoming_message(m))
+        };
+        match r {
             Ok(Ok(r)) => Ok(r),
             Ok(Err(e)) => Err(format!("{e:?}")),
             Err(p) => Err(format!("PANIC {p}")),
